@@ -36,6 +36,13 @@ def main():
             open(wt + "/.hook.diff", "w").write(out)
             sh("git apply .hook.diff", cwd=wt)
         rc, out = sh("git apply %s" % os.path.join(cand, "patch.diff"), cwd=wt)
+        if rc != 0:
+            # /repo's HEAD has moved since the change was written (hook lines, fix: commits): 3-way merge
+            rc, out = sh("git apply -3 %s" % os.path.join(cand, "patch.diff"), cwd=wt)
+            res["patch_applied_3way"] = rc == 0
+            if rc == 0:
+                sh("git reset -q", cwd=wt)
+                sh("git diff > .seed_applied.diff", cwd=wt)
         res["patch_applies"] = rc == 0
         if rc != 0:
             res["error"] = out[-2000:]
@@ -122,7 +129,10 @@ def main():
             if rp and os.path.exists(rp[0]):
                 res["checks"][pid]["replay_what"] = json.load(open(rp[0])).get("what", "")[:300]
         if not check_only:
-            rc, out = sh("git apply -R %s" % os.path.join(cand, "patch.diff"), cwd=wt)
+            if res.get("patch_applied_3way"):
+                rc, out = sh("git checkout -q -- . && git apply .hook.diff 2>/dev/null; true", cwd=wt)
+            else:
+                rc, out = sh("git apply -R %s" % os.path.join(cand, "patch.diff"), cwd=wt)
             put_demo()
             rc, out = sh(meta["demo_cmd"], cwd=wt, env=env, timeout=2400)
             res["demo_passes_without_patch"] = rc == 0
